@@ -310,6 +310,12 @@ func init() {
 		return v
 	})
 	reg([]string{"math/rand.Uint32"}, nil, noop)
+	// net.ParseCIDR: documented contract: (IP, *IPNet, nil) with a non-nil network, or (nil, nil, error)
+	reg([]string{"net.ParseCIDR"}, nil, func(e *Eng, fr *Frame, c *ssa.CallCommon, args []*Val, st *State, g string, pos token.Pos) *Val {
+		res := e.havocResults(c, st)
+		e.sc.assume(implies(eq(res.Tup[2].T, "0"), not(eq(res.Tup[1].T, "0"))), "net.ParseCIDR: a network is returned unless an error is")
+		return res
+	})
 	// rand.Shuffle(n, swap): "swap swaps the elements with indexes i and j" -- assumed contract of math/rand: swap is
 	// called some number of times, each time with 0 <= i < n and 0 <= j < n, and nothing else is touched. The caller's
 	// `iter-invariant` clauses at the site are proved to hold before, to be preserved by one arbitrary call of the
@@ -642,6 +648,7 @@ func init() {
 	}
 	ifaceHandlers["NodeAwareTransport.DialAddressTimeout"] = dial
 	ifaceHandlers["Transport.DialTimeout"] = dial
+	ifaceHandlers["NodeAwareTransport.DialTimeout"] = dial
 	ifaceHandlers["net.Conn.RemoteAddr"] = func(e *Eng, fr *Frame, c *ssa.CallCommon, recv *Val, args []*Val, st *State, g string, pos token.Pos) *Val {
 		return e.havocResults(c, st)
 	}
